@@ -54,16 +54,16 @@ func (k msgServer) Store(goCtx context.Context, msg *types.MsgStore) (*types.Msg
 		return nil, sdkerrors.Wrapf(types.ErrInvalidCid, "invalid cid: %s", proposal.Cid)
 	}
 
-	if !strings.Contains(proposal.CommitId, proposal.DataId) {
-		// validate the permission for all update operations
-		meta, isFound := k.Keeper.model.GetMetadata(ctx, proposal.DataId)
-		if !isFound {
+	existingMeta, isFound := k.Keeper.model.GetMetadata(ctx, proposal.DataId)
+	if !isFound {
+		if !strings.Contains(proposal.CommitId, proposal.DataId) {
 			return nil, status.Errorf(codes.NotFound, "metadata :%s not found", proposal.DataId)
 		}
-
-		isValid := meta.Owner == sigDid
+	} else {
+		// validate the permission for all operations on an existing model, whatever the commit id looks like
+		isValid := existingMeta.Owner == sigDid
 		if !isValid {
-			for _, readwriteDid := range meta.ReadwriteDids {
+			for _, readwriteDid := range existingMeta.ReadwriteDids {
 				if readwriteDid == sigDid {
 					isValid = true
 					break
